@@ -203,11 +203,20 @@ def login_level(chk):
     import c10, proto, struct
     from minecraft.networking.connection import Connection
     rng, th = chk.rng, chk.tier == 'thorough'
-    for trial in range(12 if th else 4):
-        pv = [47, 757][trial] if trial < 2 else rng.choice([47, 107, 210, 340, 404, 578, 757])
+    import minecraft
+    sup = sorted(p for p in minecraft.SUPPORTED_PROTOCOL_VERSIONS if p >= 47)
+    # after the multi-login trials, one login at every supported version around the 1.13 pre-releases (where the serverbound login
+    # ids moved for a while) and at a sample of the others (thorough: all): the encryption response must reach the key holder
+    # under the id the protocol gives it at THAT version
+    around = [p for p in sup if 383 <= p <= 393]
+    rest = [p for p in sup if p not in around]
+    single = around + (rest if th else rng.sample(rest, 14))
+    ntr = 12 if th else 4
+    for trial in range(ntr + len(single)):
+        pv = single[trial - ntr] if trial >= ntr else [47, 757][trial] if trial < 2 else rng.choice([47, 107, 210, 340, 404, 578, 757])
         ids = proto.Ids(pv)
         secrets = [bytes(rng.randrange(256) for _ in range(16)) for _ in range(3)]
-        nlogins = 3 if trial % 2 else 2
+        nlogins = 1 if trial >= ntr else 3 if trial % 2 else 2
         servers, plains = [], []
         tokens = []
         for k in range(nlogins):
@@ -256,7 +265,9 @@ def login_level(chk):
                     es = body[j:j + a]
                     b, j2 = proto.rd_varint(body, j + a)
                     et = body[j2:j2 + b]
-                    opened = (pid == ids.sb_encryption_response and j2 + b == len(body) and c10.rsa_open(es) == secrets[k] and c10.rsa_open(et) == tokens[k])
+                    # (id 0x01; 0x02 from 1.13-pre3 = 385 to 1.13-pre8 = 390, while the login plugin messages stood in front - trusted text)
+                    want_id = 2 if 385 <= pv <= 390 else 1
+                    opened = (pid == want_id and pid == ids.sb_encryption_response and pid != ids.sb_plugin_response and j2 + b == len(body) and c10.rsa_open(es) == secrets[k] and c10.rsa_open(et) == tokens[k])
                 except Exception:
                     opened = False
                 if not opened:
